@@ -87,6 +87,23 @@ type Informer struct {
 	stoppedCh chan struct{}
 	listErr   error
 	release   chan struct{}
+	stopCh    <-chan struct{}
+}
+
+// StopRequested reports whether the stop channel handed to Run has been closed (no waiting involved).
+func (i *Informer) StopRequested() bool {
+	i.mu.Lock()
+	ch := i.stopCh
+	i.mu.Unlock()
+	if ch == nil {
+		return false
+	}
+	select {
+	case <-ch:
+		return true
+	default:
+		return false
+	}
 }
 
 func NewSharedIndexInformer(lw cache.ListerWatcher, example runtime.Object, resync time.Duration, indexers cache.Indexers) cache.SharedIndexInformer {
@@ -153,6 +170,7 @@ func (i *Informer) HasSynced() bool {
 func (i *Informer) Run(stopCh <-chan struct{}) {
 	i.mu.Lock()
 	i.runCalled = true
+	i.stopCh = stopCh
 	mode := i.mode
 	i.mu.Unlock()
 	var w watch.Interface
